@@ -97,6 +97,48 @@ def rule_linesplit(ctx: RuleContext, p: Program, g: rx.Grammar, rid: str) -> Non
               note=f'L(_NEWLINE) is included in [^breaks]*<one break>')
 
 
+def rule_bc_spaced(ctx: RuleContext, p: Program, g: rx.Grammar, rid: str) -> None:
+    ctx.rule(rid, 'BlockComment: writer and reader agree on what an empty comment line is: _format_value inserts the space after ";" '
+                  'exactly for lines that are non-empty after stripping a set of line-end characters, and _parse_value exempts exactly '
+                  'the lines that are empty after stripping the *same* set from the leading-space requirement; that set covers the '
+                  'characters of the grammar\'s _NEWLINE')
+    bc = p.cls('BlockComment', 'models.block_comment')
+    fv = p.method(bc, '_format_value', inherited=False)
+    pv = p.method(bc, '_parse_value', inherited=False)
+
+    def strip_sets(fn: FuncInfo) -> list[tuple[str, str, bool]]:
+        out = []
+        for c in walk_no_nested(fn.node):
+            if isinstance(c, ast.Call) and isinstance(c.func, ast.Attribute) and c.func.attr in ('rstrip', 'strip') \
+                    and len(c.args) == 1 and isinstance(c.args[0], ast.Constant) and isinstance(c.args[0].value, str):
+                out.append((norm(c.func.value), ''.join(sorted(set(c.args[0].value))), True))
+        return out
+
+    wf, rf = strip_sets(fv), strip_sets(pv)
+    nl_chars = ''.join(sorted({chr(cp) for a, b in rx.accepted_chars(g.terminal_nfa('_NEWLINE')) for cp in range(a, b + 1)}))
+    ok = len(wf) == 1 and len(rf) == 1 and wf[0][1] == rf[0][1] and set(nl_chars) <= set(wf[0][1])
+    ctx.check(ok, rid, 'models.block_comment:BlockComment._parse_value / _format_value', f'writer strips {[x[1] for x in wf]!r}, reader strips {[x[1] for x in rf]!r}',
+              f'_format_value decides "empty line" by stripping {[x[1] for x in wf]!r} but _parse_value by stripping {[x[1] for x in rf]!r} '
+              f'(newline characters of the grammar: {nl_chars!r}): a line that is empty for one side and not for the other (e.g. ";\\r\\n") makes '
+              f'the value lex back with or without its leading spaces', pv.where, note=f'both strip {wf[0][1]!r}' if wf else '')
+    # the reader's exemption has the form `not <empty test> or line.startswith(' ')` over every line
+    alls = [c for c in walk_no_nested(pv.node) if isinstance(c, ast.Call) and norm(c.func) == 'all' and c.args
+            and isinstance(c.args[0], (ast.GeneratorExp, ast.ListComp))]
+    ok2 = False
+    if len(alls) == 1:
+        ge = alls[0].args[0]
+        lv = norm(ge.generators[0].target)
+        conds = [norm(x) for x in ge.generators[0].ifs]
+        body = norm(ge.elt)
+        spaced = f"{lv}.startswith(' ')"
+        empties = [f"{lv}.rstrip({c!r})" for c in ["\r\n", "\n\r"]]
+        form1 = any(body in (f"not {e} or {spaced}", f"{spaced} or not {e}") for e in empties) and not conds
+        form2 = body == spaced and len(conds) == 1 and conds[0] in empties
+        ok2 = form1 or form2
+    ctx.check(ok2, rid, 'models.block_comment:BlockComment._parse_value: spaced test', norm(alls[0])[:120] if alls else '',
+              'the "every non-empty line starts with a blank" test of _parse_value has an unexpected shape', pv.where, note='non-empty lines start with a blank')
+
+
 def _fstring_parts(e: ast.AST) -> Optional[list[tuple[str, str]]]:
     """JoinedStr -> [('lit', text) | ('val', expr, spec)]"""
     if isinstance(e, ast.Constant) and isinstance(e.value, str):
@@ -416,13 +458,14 @@ def rule_reg_rule(ctx: RuleContext, p: Program, g: rx.Grammar, rid: str) -> None
 def run(ctx: RuleContext, p: Program) -> None:
     g = grammar(p)
     ctx.stats['grammar'] = {'terminals': len(g.terminals), 'declared': g.declared, 'rules': len(g.rule_defs)}
-    rule_linesplit(ctx, p, g, 'LINESPLIT')
-    rule_lens(ctx, p, g, 'LENS')
-    rule_fmt_lang(ctx, p, g, 'FMT-LANG')
-    rule_esc_table(ctx, p, g, 'ESC-TABLE')
-    rule_default_lit(ctx, p, g, 'DEFAULT-LIT')
-    rule_bool_table(ctx, p, g, 'BOOL-TABLE')
-    rule_reg_rule(ctx, p, g, 'REG-RULE')
+    ctx.try_rule(rule_linesplit, p, g, 'LINESPLIT')
+    ctx.try_rule(rule_lens, p, g, 'LENS')
+    ctx.try_rule(rule_bc_spaced, p, g, 'BC-SPACED')
+    ctx.try_rule(rule_fmt_lang, p, g, 'FMT-LANG')
+    ctx.try_rule(rule_esc_table, p, g, 'ESC-TABLE')
+    ctx.try_rule(rule_default_lit, p, g, 'DEFAULT-LIT')
+    ctx.try_rule(rule_bool_table, p, g, 'BOOL-TABLE')
+    ctx.try_rule(rule_reg_rule, p, g, 'REG-RULE')
     ctx.not_decided += ['from_value(v).value == v for arbitrary string values', 'decimal value domain of Number (str(Decimal) may use '
                         'exponents; callers pass abs(value))', 'that produced text lexes as exactly one token in context']
     ctx.assumptions += ['frozen table of str.splitlines break characters', 'frozen strftime table for this platform (%Y unpadded '
